@@ -32,6 +32,14 @@ WzRun(e) == Chk(e.calls = WzCalls(e.hasQ, e.hasS, e.hasC, e.needCorr), "wyner_zi
 ParRun(e) == /\ Chk(e.agg = [i \in 1..e.N |-> i], "aggregator_sees_declared_order")
              /\ Chk(Len(e.pairs) = e.N /\ \A i \in 1..Len(e.pairs) : e.pairs[i] = <<i, i>>, "name_maps_to_own_result")
 
+\* benchmarks.ParallelRunner: the pool of ParallelPool with HandOver = "insertion" - the result list is the collection order, which under a
+\* gated schedule (one branch released at a time) is the finish order TLC chose; nothing is lost, duplicated or attributed to another benchmark
+PoolRun(e) == /\ Chk(e.executed = [i \in 1..e.N |-> 1], "every_benchmark_executed_exactly_once")
+              /\ Chk(Len(e.results) = e.N /\ { e.results[i] : i \in 1..Len(e.results) } = 1..e.N, "one_result_per_benchmark")
+              /\ Chk(e.results = e.finish, "results_listed_in_completion_order")
+              /\ Chk(\A i \in 1..Len(e.own) : e.own[i], "result_carries_its_benchmarks_identity")
+              /\ Chk(e.accumulated, "runner_accumulates_results_across_calls")
+
 Init == l = 1
 Next == /\ l <= Len(TLog)
         /\ LET e == TLog[l] IN
@@ -41,6 +49,7 @@ Next == /\ l <= Len(TLog)
                [] e.ev = "MacRun" -> MacRun(e)
                [] e.ev = "WzRun" -> WzRun(e)
                [] e.ev = "ParRun" -> ParRun(e)
+               [] e.ev = "PoolRun" -> PoolRun(e)
                [] OTHER -> Chk(FALSE, "unknown_event")
         /\ l' = l + 1
 Spec == Init /\ [][Next]_l
